@@ -215,6 +215,9 @@ func (c *client) sendMsg(m msgPlan, seq, flags int) error {
 	if m.Go {
 		flags |= flagGo
 	}
+	if m.Panic {
+		flags |= flagPanic
+	}
 	return c.send(clientMessage(c.r, op, clientPayload(c.cid, seq, m.Size, flags, m.SlowMs), m.Frags))
 }
 
